@@ -137,6 +137,9 @@ class WorldB:
                                         chunk_size=cfg.get('chunk_size', 0), **kw)
             if cfg.get('provider_codings') is not None:
                 self.provider.set_used_compression(*cfg['provider_codings'])
+            if cfg.get('contextstates_in_getmdib') is not None:
+                # False: GetMdibResponse carries no context states, the consumer fetches them with GetContextStates
+                self.provider.contextstates_in_getmdib = bool(cfg['contextstates_in_getmdib'])
             self.hist = History(self.mdib, self.s, front=True)
             if start:
                 self.provider.start_all(start_rtsample_loop=False, periodic_reports_interval=cfg.get('periodic'))
